@@ -6,6 +6,7 @@ import (
 	"fmt"
 	"math/big"
 
+	ecommon "github.com/ethereum/go-ethereum/common"
 	ecrypto "github.com/ethereum/go-ethereum/crypto"
 
 	g "github.com/zenon-network/go-zenon/chain/genesis/mock"
@@ -73,6 +74,7 @@ type stateEnv struct {
 	IDs        map[string][]types.Hash  // contract name -> ids of existing entries (first = owner's main entry)
 	UnwrapTx   types.Hash
 	UnwrapLog  uint32
+	WrapSig    string // TSS signature for the base state's wrap request
 	HasEntries bool
 }
 
@@ -329,6 +331,15 @@ func buildEntries(p *pair, env0 *stateEnv) (*stateEnv, string) {
 			owner.Address, tokAddrZnn, amount, unwrapSignature(netClass, netChain, env.UnwrapTx, env.UnwrapLog, owner.Address, tokAddrZnn, amount)))
 		b.step()
 		b.steps(3) // redeem delay of the pair elapses
+		if b.fail == "" {
+			st := p.P.Chain.GetFrontierAccountStore(types.BridgeContract).Storage()
+			req, err := definition.GetWrapTokenRequestById(st, w.Hash)
+			must(err)
+			ca := ecommon.HexToAddress(netAddr)
+			msg, err := implementation.GetWrapTokenRequestMessage(req, &ca)
+			must(err)
+			env.WrapSig = tssSign(msg)
+		}
 
 		// liquidity: guardians, token tuples, a stake
 		twice(types.LiquidityContract, definition.ABILiquidity.PackMethodPanic(definition.NominateGuardiansMethodName, guardians), adminDelay)
